@@ -39,6 +39,21 @@ def ann(t):
     raise ValueError(t)
 
 
+def spellable(t):
+    """can the type be written as an annotation? (function types without parameters cannot)"""
+    if isinstance(t, str):
+        return True
+    if t[0] == "fn":
+        return len(t[1]) > 0 and all(spellable(x) for x in t[1]) and spellable(t[2])
+    if t[0] in ("tuple",):
+        return all(spellable(x) for x in t[1])
+    if t[0] in ("array", "option"):
+        return spellable(t[1])
+    if t[0] == "result":
+        return spellable(t[1]) and spellable(t[2])
+    return True
+
+
 def printable(t):
     if t in (INT, BOOL, STR, VOID):
         return True
@@ -931,9 +946,23 @@ class Gen:
             return ("option", self.rand_type(depth - 1))
         if k == 11:
             return ("result", self.rand_type(depth - 1), r.choice([STR, INT]))
-        if k == 12 and allow_fn and self.cfg["lambdas"] and (not self.in_lambda or self.cfg["nested_lambdas"]):
+        if (k == 12 or (self.cfg.get("lambda_focus") and k >= 9)) and allow_fn and self.cfg["lambdas"] and (not self.in_lambda or self.cfg["nested_lambdas"]):
+            if self.cfg.get("lambda_focus"):
+                return self.rand_fn_type(2 if self.in_lambda < 2 else 1)
             return ("fn", (self.rand_scalar(),), self.rand_scalar())
         return self.rand_scalar()
+
+    def rand_fn_type(self, depth, spell=True):
+        """function types for the lambda-focused mode: 0-2 scalar parameters; the result may itself
+        be a function (closure chains such as x -> y -> x + y + a). A function type without
+        parameters cannot be written down, so it only appears where no annotation is needed."""
+        r = self.r
+        params = tuple(self.rand_scalar() for _ in range(r.choice([1, 1, 1, 2] if spell else [0, 1, 1, 1, 2])))
+        if depth > 1 and r.chance(30):
+            ret = self.rand_fn_type(depth - 1, spell)
+        else:
+            ret = self.rand_scalar()
+        return ("fn", params, ret)
 
     def setup_hosts(self):
         r = self.r
@@ -1269,6 +1298,11 @@ class Gen:
             arms.append((("ptuple", ps), self.arm_body(ty, d, binds)))
             # drop arms made redundant by an earlier identical-or-more-general arm
             arms = self.dedupe_arms(arms)
+            if shape == (BOOL, VOID):
+                # finite universe: the catch-all is redundant once true and false are both covered
+                cov = {a[0][1][0][1] for a in arms[:-1] if a[0][1][0][0] == "plit"}
+                if cov == {True, False}:
+                    arms = arms[:-1]
             self.features.add("match-tuple-void")
             return ("match", ty, scrut, arms)
         if choice == 7 and self.structs:
@@ -1441,10 +1475,35 @@ class Gen:
         r = self.r
         self.spend()
         k = r.below(100)
+        if self.cfg.get("lambda_focus") and r.chance(12):
+            a = self.assign_stmt(d)
+            if a:
+                self.features.add("reassign-in-lambda-program")
+                return [a]
+        if self.cfg.get("lambda_focus") and r.chance(30):
+            fvs = [(n, t) for (n, t, m) in self.visible() if t[0] == "fn"]
+            if fvs and r.chance(55):
+                # call a lambda and keep / print its result
+                n, t = r.choice(fvs)
+                call = ("calll", t[2], ("var", t, n), [self.expr(a, d - 1) for a in t[1]])
+                self.features.add("lambda-call")
+                if t[2][0] == "fn":
+                    self.features.add("lambda-returns-lambda")
+                x = self.fresh("x")
+                self.declare(x, t[2], False)
+                out = [("let", x, t[2], call, False, False)]
+                if printable(t[2]):
+                    out.append(("print", ("var", t[2], x), True))
+                return out
+            t = self.rand_fn_type(2, spell=False)
+            x = self.fresh("x")
+            e = self.lam(t, d)
+            self.declare(x, t, False)
+            return [("let", x, t, e, False, spellable(t) and r.chance(50))]
         if k < 26:
             # let / var
             t = self.rand_type(2, allow_fn=True)
-            mut = r.chance(35) and t[0] != "fn"
+            mut = r.chance(60 if self.cfg.get("lambda_focus") else 35) and t[0] != "fn"
             shadowable = [v[0] for v in self.visible() if v[0][0] in "xd"]
             n = self.fresh("x") if not r.chance(12) or not shadowable else r.choice(shadowable)
             e = self.expr(t, d - 1) if not (t[0] == "array" and r.chance(25)) else ("array", t, [])
